@@ -463,7 +463,7 @@ def _show(v, depth=0):
 
 
 def resolve_callable(target):
-    module, qual = target.split(":")
+    module, qual = target.split("@")[0].split(":")
     mod = importlib.import_module(module)
     obj = mod
     for part in qual.split("."):
